@@ -7,7 +7,11 @@ package decimal
 func H_C01_set() {
 	which := vCfg("which") // 0 Set, 1 Neg, 2 Abs
 	fx, w, p := vCfgOr("fx", fFinite), vCfgOr("w", 1), vCfg("p")
-	x := vDec("x", fx, w, 0, vCfgOr("px", 0))
+	pxv := vCfgOr("px", 0)
+	if vCfgOr("alias", 5) == 1 {
+		pxv = p // the receiver is x itself: its precision is x's
+	}
+	x := vDec("x", fx, w, 0, pxv)
 	xs := snap(x)
 	z := receiver(vCfgOr("alias", 5), x, x, p)
 	if vCfgOr("p0", 0) == 1 {
@@ -27,16 +31,16 @@ func H_C01_set() {
 	})
 	vAssert("C04.nopanic", k == 0)
 	// statement: Neg/Abs round (with x's sign) and then change the sign
-	rneg := x.neg
-	wneg := x.neg
+	rneg := xs.neg
+	wneg := xs.neg
 	if which == 1 {
-		wneg = !x.neg
+		wneg = !xs.neg
 	}
 	if which == 2 {
 		wneg = false
 	}
 	if fx == fFinite {
-		r := roundRef(specMant(x), false, int64(x.exp)-int64(w*_DW), p, mode, rneg, w*_DW, w*_DW)
+		r := roundRef(specMantSnap(xs), false, int64(xs.exp)-int64(w*_DW), p, mode, rneg, w*_DW, w*_DW)
 		if r.form == finite || which == 0 {
 			refMatchSign("C01.value", "C02.acc", z, r, wneg)
 		} else {
@@ -51,6 +55,8 @@ func H_C01_set() {
 		vAssert("C09.prec", z.prec == uint32(p))
 	}
 	vAssert("C09.mode", z.mode == mode)
-	vAssert("C09.operand", unchanged(x, xs))
+	if x != z {
+		vAssert("C09.operand", unchanged(x, xs))
+	}
 	vReach("end")
 }
